@@ -59,7 +59,7 @@ def install(eng):
                     m = eng.model_of(st, z3.UGT(n, lim))
                     st.model = m
                     raise PathEnd('resource', ('input-controlled-allocation', 'allocation size depends on input and can exceed %d bytes (e.g. %d)' % (lim, m.eval(n, model_completion=True).as_long()), st.where()))
-                n = addr_of(eng, st, n, 0, work, 70000)
+                n = addr_of(eng, st, n, 0, work, 600)
             if n > (1 << 28):
                 if st.input_tainted_alloc or n <= (1 << 40):
                     raise PathEnd('resource', ('huge-allocation', 'allocation of %d bytes' % n, st.where()))
@@ -129,12 +129,12 @@ def install(eng):
     # ---- memory intrinsics / libc
     def memcpy(eng, st, fr, a, work, ins):
         n = a[2]
-        if type(n) is not int: n = addr_of(eng, st, n, 0, work, 70000)
+        if type(n) is not int: n = addr_of(eng, st, n, 0, work, 600)
         st.copy(a[0], a[1], n); return a[0]
     S['memcpy'] = S['memmove'] = memcpy
     def memset(eng, st, fr, a, work, ins):
         n = a[2]
-        if type(n) is not int: n = addr_of(eng, st, n, 0, work, 70000)
+        if type(n) is not int: n = addr_of(eng, st, n, 0, work, 600)
         if n:
             o, off = st.find(a[0], n, True)
             v = a[1]
@@ -269,7 +269,7 @@ def install(eng):
     S['__vp_file_open'] = f_open
     def f_read(eng, st, fr, a, work, ins):
         n = a[2]
-        if type(n) is not int: n = addr_of(eng, st, n, 0, work, 70000)
+        if type(n) is not int: n = addr_of(eng, st, n, 0, work, 600)
         h = st.handles[a[0]]; data = st.files[h[0]]
         n = sx(n, 64)
         if n <= 0: return 0
@@ -314,7 +314,7 @@ def install(eng):
     S['__vp_file_write'] = f_write
     def f_seek(eng, st, fr, a, work, ins):
         off = a[1]
-        if type(off) is not int: off = addr_of(eng, st, off, 0, work, 70000)
+        if type(off) is not int: off = addr_of(eng, st, off, 0, work, 600)
         h = st.handles[a[0]]; off = sx(off, 64); wh = a[2]
         base = 0 if wh == 0 else h[1] if wh == 1 else len(st.files[h[0]])
         p = base + off
